@@ -735,7 +735,7 @@ def kotlin_import_part(check):
                                 % (pfx, imported, sorted(defs), " (the repaired class kotlin-import-without-prefix, fix 8dc01bf, has returned)" if bad else ""),
                                 case=case, impl=ra, model=ma, failing_input=True)
                 return
-        if ma != ra and mismatch is None and "ambiguous" not in ma:
+        if ma != ra and mismatch is None:
             mismatch = (case, ma, ra)
     if mismatch:
         case, ma, ra = mismatch
@@ -791,7 +791,7 @@ def multi_part(check):
                     check.violation("%s multi-file output of crate %s defines `%s` but still refers to the Rust name `%s`" % (lang, c, defined, other),
                                     case={"lang": lang, "sources": texts, "renames": plan}, impl=ra, model=ma, failing_input=True)
                     return
-        if ma != ra and mismatch is None and "ambiguous" not in ma:
+        if ma != ra and mismatch is None:
             mismatch = (lang, texts, ma, ra)
     if mismatch:
         lang, texts, ma, ra = mismatch
